@@ -793,6 +793,27 @@ def ic_stage(out, name, prop, kinds, alpha, maxops, ghost, extend=True, **kw):
     return stage_edges(out, name, "ICMC.tla", c, IC_INV, IC_PROPS, "ic-replay", prop, **kw)
 
 
+def stride_proof_stage(out):
+    """TLAPS: the unbounded step theorems about Stride::push (proofs/StrideProof.tla EXTENDS the very StrideCore.tla
+    that IndexContainers.tla extends).  Supplementary to the bounded TLC result; a failure means the proof and the
+    specification have drifted apart (tool error, not a violation of the code)."""
+    wd = os.path.join(WORK, out.prop, "tlaps")
+    shutil.rmtree(wd, ignore_errors=True)
+    os.makedirs(wd)
+    shutil.copy(os.path.join(SPEC, "StrideCore.tla"), wd)
+    shutil.copy(os.path.join(SPEC, "proofs", "StrideProof.tla"), wd)
+    t0 = time.time()
+    rc, o = sh(["tlapm", "--threads", "8", "StrideProof.tla"], cwd=wd, timeout=1500)
+    m = re.search(r"All (\d+) obligations proved", o)
+    if rc != 0 or not m:
+        log(o[-1500:])
+        raise ToolError("tlapm does not prove proofs/StrideProof.tla against spec/StrideCore.tla")
+    out.stages.append({"stage": "stride-step-proof", "module": "proofs/StrideProof.tla", "tool": "tlapm (TLAPS)",
+                       "obligations_proved": int(m.group(1)), "seconds": round(time.time() - t0, 1),
+                       "theorems": ["InitWF", "RejectIsNoop", "PushKeepsWF", "AcceptAppends"]})
+    shutil.rmtree(wd, ignore_errors=True)
+
+
 def walk_filter(pred):
     def f(e):
         if e["why"].startswith("TOOL-"):
@@ -861,6 +882,7 @@ def run_property(prop, tier, seed):
         ic_stage(out, "small-deep", prop, ["stride", "opt", "list"], "small", 6 if q else 8, 0, extend=False)
         if not q:
             ic_stage(out, "big-deep", prop, ["stride", "opt", "list"], "big", 6, 0, extend=False)
+            stride_proof_stage(out)
         ic_walk_stage(out, q, seed, lambda e: e["why"] != "heap-bytes-differ-from-documented-cost")
     elif prop == "C19":
         # ghost = 1: reserve / clone / serde may precede or follow; capacity must stay zero for compressible histories
